@@ -119,7 +119,11 @@ func genSmart(r *rng.R, t *trace.Trace, steer bool) {
 	t.Config.NodeSize = 1024
 	nt := r.Range(1, 4)
 	// re-evaluation interval of the monitor: k*1024+33 ns of fake time
-	t.Config.Extra = []string{fmt.Sprint(int64(r.Range(2, 12))*1024 + 33), fmt.Sprint(rng.Pick(r, []float64{0, 0.5, 0.7})), fmt.Sprint(rng.Pick(r, []int64{0, 2048, 1 << 20}))}
+	// [3]: the file size the adapter reports (constant during the run): above
+	// 500 MB the rule-based strategy selects the incremental mode, so the monitor
+	// really starts and stops the background rebalancer
+	t.Config.Extra = []string{fmt.Sprint(int64(r.Range(2, 12))*1024 + 33), fmt.Sprint(rng.Pick(r, []float64{0, 0.5, 0.7})), fmt.Sprint(rng.Pick(r, []int64{0, 2048, 1 << 20})),
+		fmt.Sprint(rng.Pick(r, []int64{1 << 20, 600 << 20, 600 << 20, 2 << 30}))}
 	for i := 0; i < nt; i++ {
 		var s []trace.Op
 		n := r.Range(3, 25)
@@ -185,6 +189,7 @@ func (a *treeAdapter) EnableIncrementalRebalancing(c structures.IncrementalRebal
 	}
 	c.Interval = 3*1024 + 1 // fake nanoseconds
 	c.Budget = 1000
+	setIncrIntervalCur(c.Interval)
 	return a.bt.EnableIncrementalRebalancing(c)
 }
 func (a *treeAdapter) DisableRebalancing() error {
@@ -302,8 +307,59 @@ func runBubble(t *trace.Trace, dir string) (bo *bubbleOut) {
 		}()
 		bubbleBody(t, dir, bo, nfg)
 	}()
-	<-finished
+	select {
+	case <-finished:
+	case <-time.After(realTimeLimit):
+		// Fake time cannot advance while a goroutine of the bubble waits for a
+		// sync.Mutex (that is not a durable block), so a lock that is never
+		// released stalls the bubble in real time. This process cannot recover
+		// from that: name the lock site and die; the driver attributes the death
+		// to the announced trace and confirms it by replaying in fresh processes.
+		site := lockBlockedSite()
+		if site == "" {
+			fmt.Fprintln(os.Stderr, "INFRA: bubble made no progress for "+realTimeLimit.String()+" and no goroutine waits for a library lock")
+			os.Exit(2)
+		}
+		// one stable class; which callers are stuck depends on the schedule
+		fmt.Fprintln(os.Stderr, "HANG: deadlock library-lock-never-released")
+		fmt.Fprintln(os.Stderr, "goroutines waiting for a library lock: "+site)
+		os.Exit(3)
+	}
 	return bo
+}
+
+// realTimeLimit bounds the real time of one bubble (a healthy bubble takes
+// milliseconds; fake time costs nothing).
+const realTimeLimit = 15 * time.Second
+
+// lockBlockedSite returns the innermost library function of a goroutine that
+// waits for a sync.Mutex / sync.RWMutex, or "".
+func lockBlockedSite() string {
+	buf := make([]byte, 4<<20)
+	n := runtime.Stack(buf, true)
+	var sites []string
+	for _, g := range strings.Split(string(buf[:n]), "\n\n") {
+		hdr, _, _ := strings.Cut(g, "\n")
+		if !strings.Contains(hdr, "sync.Mutex.Lock") && !strings.Contains(hdr, "sync.RWMutex") && !strings.Contains(hdr, "semacquire") {
+			continue
+		}
+		for _, l := range strings.Split(g, "\n")[1:] {
+			l = strings.TrimSpace(l)
+			if strings.HasPrefix(l, "github.com/scigolib/hdf5/verifsim") {
+				break
+			}
+			if strings.HasPrefix(l, "github.com/scigolib/hdf5") {
+				fn := strings.TrimPrefix(l, "github.com/scigolib/hdf5")
+				if k := strings.LastIndex(fn, "("); k > 0 {
+					fn = fn[:k]
+				}
+				sites = append(sites, fn)
+				break
+			}
+		}
+	}
+	sort.Strings(sites)
+	return strings.Join(sites, ", ")
 }
 
 func bubbleBody(t *trace.Trace, dir string, bo *bubbleOut, nfg int) {
@@ -312,8 +368,27 @@ func bubbleBody(t *trace.Trace, dir string, bo *bubbleOut, nfg int) {
 		if t.Config.Mode == "smart" {
 			// the smart rebalancer stops the incremental loop while holding its own
 			// mutex (applyDecision): no sleeping at the yield points inside that call
-			s.noSleep = []string{"incr.Stop", "incr.StopIncremental"}
-			s.bgNoSleep = true
+			// ... nor in the incremental loop, which that call waits for. The monitor
+			// goroutine itself may sleep at its yield points (all outside locks) as
+			// long as at most one caller uses Start/Stop: Stop waits for the monitor
+			// while holding the lifecycle mutex, and a second caller blocked on that
+			// mutex is not durably blocked, so fake time could not advance.
+			s.noSleep = []string{"incr."}
+			lifecycleTasks := 0
+			for _, tk := range t.Tasks {
+				for _, op := range tk.Script {
+					if op.Op == "sr_start" || op.Op == "sr_stop" {
+						lifecycleTasks++
+						break
+					}
+				}
+			}
+			s.bgNoSleep = lifecycleTasks > 1
+			var iv int64 = 5*1024 + 33
+			if len(t.Config.Extra) >= 1 {
+				fmt.Sscan(t.Config.Extra[0], &iv)
+			}
+			s.smartInterval = time.Duration(iv)
 		}
 		s.nfg = nfg
 		for _, tk := range t.Tasks {
@@ -327,14 +402,22 @@ func bubbleBody(t *trace.Trace, dir string, bo *bubbleOut, nfg int) {
 		defer func() { utils.VerifYieldHook = nil; cur = nil }()
 		env := newEnv(t, dir, s)
 		defer env.cleanup()
+		// Staggered start: goroutines made runnable by `go` at the same instant
+		// would start in an order the runtime chooses. Each task first sleeps to
+		// its own slot (assigned here, by the main task), so the fake clock decides.
+		now := time.Since(s.start)
+		first := (now/slot + 1) * slot
 		for i := 0; i < nfg; i++ {
 			i := i
+			wake := first + time.Duration(i)*slot
 			go func() {
 				s.bind(i)
+				time.Sleep(wake - now)
 				pan := guard(func() { env.runTask(i, t.Tasks[i].Script) })
 				s.markDone(i, pan)
 			}()
 		}
+		s.nextWake = first + time.Duration(nfg)*slot
 		// wait (in fake time) for the foreground tasks; a task that never
 		// finishes is a stop that does not return
 		for k := 0; k < 3000 && !s.allDone(nfg); k++ {
@@ -355,6 +438,9 @@ func bubbleBody(t *trace.Trace, dir string, bo *bubbleOut, nfg int) {
 			bo.leak = strings.Join(gs, ";")
 		}
 		bo.simNs = int64(time.Since(s.start))
+		if t.Config.Mode == "incremental" && nfg == 1 && s.allDone(nfg) {
+			s.addResult(0, indexContent(env.bt))
+		}
 		for i := 0; i < nfg; i++ {
 			bo.results = append(bo.results, s.tasks[i].result)
 			if s.tasks[i].panic != "" {
@@ -376,6 +462,9 @@ type env struct {
 	shared []string
 	ctx    context.Context
 	cancel context.CancelFunc
+	// noBg: sequential reference run of the incremental mode - the background
+	// rebalancer is never started
+	noBg bool
 }
 
 func newEnv(t *trace.Trace, dir string, s *sched) *env {
@@ -390,6 +479,9 @@ func newEnv(t *trace.Trace, dir string, s *sched) *env {
 	case "smart":
 		e.bt = structures.NewWritableBTreeV2(uint32(node))
 		e.ad = &treeAdapter{bt: e.bt, size: 1 << 20}
+		if len(t.Config.Extra) >= 4 {
+			fmt.Sscan(t.Config.Extra[3], &e.ad.size)
+		}
 		var iv int64 = 5*1024 + 33
 		minConf, stab := 0.7, int64(0)
 		if len(t.Config.Extra) >= 3 {
@@ -516,12 +608,22 @@ func (e *env) runTask(i int, script []trace.Op) {
 			_, _, _ = e.bt.GetLazyRebalancingStats()
 			_ = e.bt.IsIncrementalRebalancingEnabled()
 		case "bt_enable_incremental":
+			if e.noBg {
+				break
+			}
 			cfg := structures.DefaultIncrementalConfig()
 			if op.Incr != nil {
 				cfg.Budget, cfg.Interval = time.Duration(op.Incr.BudgetNs), time.Duration(op.Incr.IntervalNs)
 			}
+			if !e.bt.IsIncrementalRebalancingEnabled() {
+				// (a second enable is rejected and leaves the running loop's period)
+				e.setIncrInterval(cfg.Interval)
+			}
 			_ = e.bt.EnableIncrementalRebalancing(cfg)
 		case "bt_stop_incremental":
+			if e.noBg {
+				break
+			}
 			for n := 0; n < max(op.N, 1); n++ {
 				_ = e.bt.StopIncrementalRebalancing()
 			}
@@ -554,9 +656,41 @@ func (e *env) runTask(i int, script []trace.Op) {
 	}
 }
 
-// sequentialResults re-runs the independent-handle scripts one after another
-// (no interleaving) to obtain the expected results.
+// indexContent renders the records of the B-tree (the index content the
+// foreground task must find whatever the background rebalancer did meanwhile).
+func indexContent(bt *structures.WritableBTreeV2) string {
+	var b strings.Builder
+	recs := bt.GetRecords()
+	fmt.Fprintf(&b, "content n=%d:", len(recs))
+	for _, r := range recs {
+		fmt.Fprintf(&b, " %08x=%x", r.NameHash, r.HeapID)
+	}
+	return b.String()
+}
+
+// sequentialResults re-runs the scripts without interleaving to obtain the
+// expected results: the independent-handle scripts one after another; the
+// incremental-mode script on a fresh index whose background rebalancer is
+// never started (background rebalancing must not change what insert, delete
+// and search return, nor the final content).
 func (e *env) sequentialResults(t *trace.Trace, nfg int) [][]string {
+	if t.Config.Mode == "incremental" && nfg == 1 {
+		node := t.Config.NodeSize
+		if node == 0 {
+			node = 1024
+		}
+		ref := &env{t: t, dir: e.dir, bt: structures.NewWritableBTreeV2(uint32(node)), noBg: true}
+		seq := &sched{start: time.Now(), maxSteps: 0}
+		seq.tasks = []*taskState{{name: "seq"}, {name: "seq"}}
+		ref.s = seq
+		oldCur := cur
+		cur = seq
+		defer func() { cur = oldCur }()
+		seq.bind(0)
+		ref.runTask(0, t.Tasks[0].Script)
+		seq.addResult(0, indexContent(ref.bt))
+		return [][]string{seq.tasks[0].result}
+	}
 	if t.Config.Mode != "handles" {
 		return nil
 	}
@@ -736,6 +870,10 @@ func execC18(t *trace.Trace, dir string) *harness.RunResult {
 	if bo.seqResults != nil {
 		for i := range bo.seqResults {
 			if i < len(bo.results) && strings.Join(bo.results[i], "\n") != strings.Join(bo.seqResults[i], "\n") {
+				if t.Config.Mode == "incremental" {
+					viol("background-vs-none", "index-results-differ", "insert/delete/search results or the final index content differ from the same script run without the background rebalancer: "+firstDiff(bo.results[i], bo.seqResults[i]))
+					break
+				}
 				viol("parallel-vs-sequential", "results-differ", fmt.Sprintf("task %d returned different results when interleaved with other handles", i))
 				break
 			}
@@ -749,6 +887,16 @@ func execC18(t *trace.Trace, dir string) *harness.RunResult {
 			if strings.HasSuffix(ev.site, ".tick") {
 				res.Probes["background-tick"]++
 			}
+		}
+	}
+	if lp := os.Getenv("E4_LOG"); lp != "" && bo.s != nil {
+		// determinism self-test: the full (task, site) event log of this run
+		if f, err := os.OpenFile(lp, os.O_APPEND|os.O_CREATE|os.O_WRONLY, 0o644); err == nil {
+			fmt.Fprintf(f, "RUN mode=%s hash=%x steps=%d simNs=%d\n", t.Config.Mode, bo.s.interleavingHash(), bo.s.steps, bo.simNs)
+			for _, ev := range bo.s.log {
+				fmt.Fprintf(f, "  %d %s\n", ev.task, ev.site)
+			}
+			f.Close()
 		}
 	}
 	res.SimNs = bo.simNs
@@ -892,7 +1040,40 @@ func init() {
 		Assumptions: []string{"the B-tree writer API is documented as not thread-safe: exactly one foreground task drives it; several callers are used only where the code promises thread-safety (smart rebalancer) or independence (distinct handles)",
 			"interleavings are explored at the granularity of yield points, I/O calls and timer firings, not of individual memory accesses (data races are still reported whatever the order, because the detector is happens-before based)"},
 		RealVsStub:      map[string]string{"real": "internal/structures B-tree + incremental rebalancer, internal/rebalancing smart rebalancer/detector/selector/metrics, public read/write API, Go runtime race detector", "simulated": "clock (synctest fake time), scheduler (seeded delays), buffer pool (deterministic, poisoning), I/O yields behind H3/H4", "stub": "the rebalancing.BTreeV2 adapter over the real WritableBTreeV2 (the repository has no implementation outside test mocks)"},
-		NeedsTestBinary: true,
-		MaxShrinkExecs:  120,
+		NeedsTestBinary: true, ReplayAttempts: 8,
+		MaxShrinkExecs: 120,
 	})
+}
+
+func firstDiff(a, b []string) string {
+	for i := 0; i < len(a) && i < len(b); i++ {
+		if a[i] != b[i] {
+			x, y := a[i], b[i]
+			if len(x) > 120 {
+				x = x[:120]
+			}
+			if len(y) > 120 {
+				y = y[:120]
+			}
+			return fmt.Sprintf("result %d: %q vs %q", i, x, y)
+		}
+	}
+	return fmt.Sprintf("%d vs %d results", len(a), len(b))
+}
+
+// setIncrInterval tells the scheduler the ticker period of the incremental
+// rebalancer that is about to start (see sched.incrInterval).
+//
+//go:norace
+func (e *env) setIncrInterval(d time.Duration) {
+	if e.s != nil {
+		e.s.incrInterval = d
+	}
+}
+
+//go:norace
+func setIncrIntervalCur(d time.Duration) {
+	if cur != nil {
+		cur.incrInterval = d
+	}
 }
